@@ -28,6 +28,8 @@ type KeySpec struct {
 	Extra   []KV
 	Pair    *KeyPair // the Go key it was derived from (nil for symmetric/custom)
 	Desc    string
+	// Unsupported: a genuine key on an OKP curve this library has no code for
+	Unsupported bool
 }
 
 func crvOf(c elliptic.Curve) int64 {
@@ -256,6 +258,7 @@ func genKeySpec(t *tape.Tape) *KeySpec {
 			ks.Alg = nil
 		}
 		ks.Pair = nil
+		ks.Unsupported = true
 		ks.Desc += " (OKP curve without code in this library)"
 	}
 	if t.Bool(1, 8, "keyspec.extra.text") {
